@@ -111,11 +111,20 @@ func Draw(t *rapid.T, o Options) Spec {
 	}).Draw(t, "modpath")
 	n := rapid.IntRange(o.MinPkgs, o.MaxPkgs).Draw(t, "npkgs")
 	s.Pkgs = append(s.Pkgs, PkgSpec{Dir: "", Name: "main"})
+	specialUsed := false
 	for i := 1; i < n; i++ {
-		style := rapid.IntRange(0, 3).Draw(t, fmt.Sprintf("pkgstyle%d", i))
+		style := rapid.IntRange(0, 4).Draw(t, fmt.Sprintf("pkgstyle%d", i))
 		name := fmt.Sprintf("pkzq%dw", i)
 		dir := name
+		if style == 4 && (specialUsed || usesStdReflect(kinds)) {
+			style = 0
+		}
 		switch style {
+		case 4:
+			// a user package named like a special std package
+			specialUsed = true
+			name = rapid.SampledFrom([]string{"embed", "runtime", "reflect"}).Draw(t, fmt.Sprintf("special%d", i))
+			dir = fmt.Sprintf("internal/zq%dw/%s", i, name)
 		case 1:
 			dir = fmt.Sprintf("internal/%s", name)
 		case 2:
@@ -167,6 +176,15 @@ func Draw(t *rapid.T, o Options) Spec {
 		s.Exit = rapid.Bool().Draw(t, "exit")
 	}
 	return s
+}
+
+func usesStdReflect(kinds []string) bool {
+	for _, k := range kinds {
+		if k == "reflect" {
+			return true
+		}
+	}
+	return false
 }
 
 // ---------------------------------------------------------------------------
@@ -544,7 +562,11 @@ func Render(s Spec) *Program {
 		if i == 0 {
 			continue
 		}
-		p.Names = append(p.Names, NameInfo{Name: pk.Name, Kind: "pkg", Pkg: i})
+		special := pk.Name == "embed" || pk.Name == "runtime" || pk.Name == "reflect"
+		if !special {
+			// (a package named like a std package is no recognisable marker; its import path is)
+			p.Names = append(p.Names, NameInfo{Name: pk.Name, Kind: "pkg", Pkg: i})
+		}
 		for _, el := range strings.Split(pk.Dir, "/") {
 			if el != "internal" && el != pk.Name {
 				p.Names = append(p.Names, NameInfo{Name: el, Kind: "dir", Pkg: i})
